@@ -392,7 +392,9 @@ impl Prop for C18 {
         // (found by the thorough fuzz sweep at seed 1: an unbounded override made the HARNESS
         // allocate 70 GB; see DESIGN section 9)
         if let Some((c, r)) = k.big {
-            if c as u64 * r as u64 > 300_000 {
+            // (a view adds margins to BOTH dimensions: (3.6e9, 0) passed a product-only bound and
+            // the harness then built a 3.6e9 x 3 parent)
+            if (c as u64 + 8) * (r as u64 + 8) > 400_000 {
                 k.big = None;
             }
         }
